@@ -10,10 +10,11 @@ LEVEL = "exploration"
 LD = np.longdouble
 
 PAIRS = ["RK45CKSolver", "DOPRI45", "HeunEulerSolver", "RK8713MSolver", "RK108Solver", "RK1412Solver", "LobattoIIIC4", "RadauIIA5", "RadauIIA19"]
-RICH = ["RICH:EulerSolver:3", "RICH:MidpointSolver:3", "RICH:RK4Solver:3", "RICH:ImplicitMidpoint:3"]
+RICH = ["RICH:EulerSolver:3", "RICH:MidpointSolver:3", "RICH:RK4Solver:3", "RICH:ImplicitMidpoint:3", "RICH:ABAs5o6HSolver:3", "RICH:SymplecticEulerSolver:3"]
+SPLIT_RICH = ("RICH:ABAs5o6HSolver:3", "RICH:SymplecticEulerSolver:3")      # splitting bases: separable problem (rotation) only
 
 # per-method constants C_m (error / (tolerance * amplification)); frozen table, see DESIGN 6 -- 10x the worst ratio observed on the repaired tree, rounded up
-C_M = {"default": 20.0, "RICH:EulerSolver:3": 100.0, "RICH:MidpointSolver:3": 100.0, "RICH:ImplicitMidpoint:3": 100.0, "RICH:RK4Solver:3": 100.0}
+C_M = {"default": 20.0, "RICH:ABAs5o6HSolver:3": 100.0, "RICH:SymplecticEulerSolver:3": 100.0, "RICH:EulerSolver:3": 100.0, "RICH:MidpointSolver:3": 100.0, "RICH:ImplicitMidpoint:3": 100.0, "RICH:RK4Solver:3": 100.0}
 # calibration (repaired tree, quick + thorough tiers): worst observed error/(tol*kappa) is 0.14 for the embedded pairs and 2.2 for the Richardson
 # wrappers; C_m = 10x that, rounded up (20 / 100).  A seeded swap of atol and rtol raises the ratio to 50 .. 670.
 
@@ -94,6 +95,24 @@ def accuracy_case(case):
             log.append(("attempt", float(h), bool(ig.solver_dict.get("newton_iteration_success", True))))
             return out
         ig.step = step
+    else:
+        # Richardson wrappers: log the verdict of the wrapper's own step controller for every attempt
+        ig = a.integrator
+        orig_ut = ig.update_timestep
+
+        depth = dict(n=0)
+
+        def ut(*a_, **k_):
+            # update_timestep re-enters itself through the adaptation_fn indirection: log the outermost call only
+            depth["n"] += 1
+            try:
+                new_dt, redo = orig_ut(*a_, **k_)
+            finally:
+                depth["n"] -= 1
+            if depth["n"] == 0:
+                log.append(("verdict", float(ig.solver_dict["timestep"]), bool(redo)))
+            return new_dt, redo
+        ig.update_timestep = ut
     t0, tf = case["span"]
     calls = []
 
@@ -125,6 +144,26 @@ def accuracy_case(case):
     if err > bound:
         r.v("C05/accuracy/%s" % name, "error against the exact solution is bounded by a modest constant times (atol + rtol|y|) times the problem's amplification", case,
             observed=dict(err=err, bound=bound, ratio_to_tol=ratio, steps=len(T) - 1), expected="<= C_m tol kappa")
+    # O3 for Richardson wrappers: the attempt that is finally recorded must be one the wrapper's controller did not reject,
+    # and every attempt after a rejection is strictly smaller
+    if log and log[0][0] == "verdict":
+        prev = 0
+        for k, upto in enumerate(calls):
+            att = log[prev:upto]
+            prev = upto
+            if not att:
+                continue
+            if att[-1][2]:
+                r.v("C05/rejected-step-recorded/%s" % name, "a step the controller rejects is retried, not recorded", dict(case, step=k),
+                    observed=dict(attempts=[(x[1], x[2]) for x in att][:6], recorded_step=float(T[k + 1] - T[k])), expected="the recorded attempt was accepted by the controller")
+                break
+            mags = [abs(x[1]) for x in att]
+            if any(m2 >= m1 for (m1, r1), m2 in zip([(abs(x[1]), x[2]) for x in att[:-1]], mags[1:]) if r1):
+                r.v("C05/retry-not-smaller/%s" % name, "a step the controller rejects is retried with a strictly smaller step magnitude", dict(case, step=k),
+                    observed=dict(attempts=[(x[1], x[2]) for x in att][:8]), expected="strictly decreasing magnitudes after a rejection")
+                break
+        r.add("rejections_observed", sum(1 for x in log if x[2]))
+        log = []
     # O3 retry protocol: within one integrator call every retry after a controller rejection is strictly smaller, same sign, accepted |dT| <= request
     if log:
         prev = 0
@@ -217,7 +256,9 @@ def run(ctx):
             for (t0, tf) in ((0.0, 2.0), (2.0, 0.0)) + (() if ctx.quick else ((-1.0, 1.0), (1.0, -1.0))):
                 for tol in tols:
                     for dt0 in ((1e-2, 5.0) if ctx.quick else (1e-4, 1e-2, 1.0, 5.0)):
-                        order = {"HeunEulerSolver": 2, "RICH:EulerSolver:3": 2, "RICH:MidpointSolver:3": 3, "RICH:ImplicitMidpoint:3": 3, "LobattoIIIC4": 4}.get(m, 5)
+                        if m in SPLIT_RICH and prob != "rotation":
+                            continue
+                        order = {"HeunEulerSolver": 2, "RICH:EulerSolver:3": 2, "RICH:SymplecticEulerSolver:3": 2, "RICH:MidpointSolver:3": 3, "RICH:ImplicitMidpoint:3": 3, "LobattoIIIC4": 4}.get(m, 5)
                         est_steps = 2.0 / (tol ** (1.0 / order))
                         if est_steps > 2e4 or (ctx.quick and est_steps > 3000) or (m.startswith("RICH") and est_steps > 600) or (m in ("RadauIIA19",) and tol < 1e-7 and ctx.quick):
                             skipped += 1
